@@ -185,13 +185,13 @@ class DryRunRenamer:
         source_key = Path(os.path.abspath(source_path))
         destination_key = Path(os.path.abspath(destination_path))
         source_exists = (
-            os.path.lexists(source_path) or source_key in self.created_paths
+            os.path.lexists(source_key) or source_key in self.created_paths
         ) and source_key not in self.removed_paths
         if not source_exists:
             raise FileNotFoundError(f"No such file or directory: {source_path}")
 
         destination_exists = (
-            os.path.lexists(destination_path)
+            os.path.lexists(destination_key)
             or destination_key in self.created_paths
         ) and destination_key not in self.removed_paths
         if destination_exists and not override:
